@@ -25,7 +25,7 @@ package pipc
 //@ func Try$1 [C16]
 //@   layers contract trace
 //@   trace Scope.Wait as WAIT
-//@   trace Runner.Run as SUBMIT:$0.Name
+//@   trace Runner.Run as SUBMIT:$0.Name bind submitted
 //@   trace Scope.BaseContextScope as BASE bind base
 //@   trace ContextScope.AppendError as APPERR
 //@   trace DoneTask as DONE
@@ -34,9 +34,10 @@ package pipc
 // the parent scope is closing while this goroutine runs (its Close waits for it) and
 // Scope.AppendError panics on a closed scope: failures go to the parent's context, never there
 //@   at_call Scope.BaseContextScope requires $recv == parentScope
-//@   at_call ContextScope.AppendError requires $recv == base
+//@   at_call ContextScope.AppendError requires $recv == base && len($0) == 1 && $0[0] == submitted && submitted != nil
 //@   at_call Scope.AppendError requires false
-//@   trace_ensures true : ^BASE WAIT (SUBMIT:finally )?(APPERR )?(SUBMIT:fail )?(APPERR )?(SUBMIT:success )?(APPERR )?DONE $
+// (the body's own error is never put on the parent: an append directly follows the submission it reports)
+//@   trace_ensures true : ^BASE WAIT (SUBMIT:finally (APPERR )?)?(SUBMIT:fail (APPERR )?)?(SUBMIT:success (APPERR )?)?DONE $
 //@   trace_ensures deps.FinallyBody == "" : !SUBMIT:finally
 //@   trace_ensures deps.FinallyBody != "" : ^BASE WAIT SUBMIT:finally
 //@   trace_ensures !(deps.FailBody != "" && catchErr != nil) : !SUBMIT:fail
